@@ -251,6 +251,14 @@ class Judge:
         if isinstance(d, dict) and set(d) == {"idx"}:
             raise self.bad("C16.7 option-effect-without-option", "C16.7:idx", "source serialized as an index reference although index-based sources were not requested", path)
         self.common(d, type(s).__name__, path, "source")
+        for attr in ("relative_path", "in_zip_path"):
+            # Path fields of file-backed sources are nested values of the call like any other: the call's mashumaro
+            # dialect (here: a Path strategy) applies to them
+            if hasattr(s, attr):
+                v = d.get(attr)
+                self.w.stats.probes["source_path_field_judged"] += 1
+                if self.dialect != (isinstance(v, str) and v.startswith("P:")):
+                    raise self.bad("C16.9 dialect-effect", f"C16.9:source-path:{'missing' if self.dialect else 'leaked'}", f"{type(s).__name__}.{attr} rendered as {v!r} with dialect={'on' if self.dialect else 'off'}", path)
         if isinstance(s, SourceSet):
             ds = d.get("sources")
             if not isinstance(ds, list) or len(ds) != len(s.sources):
